@@ -63,8 +63,10 @@ package sample
 //@   ensures[goals-scaled] goalsScaled(s)
 //@   modifies s.peerCount, s.sharedDynsamplers, s.goalThroughputConfigs
 
+//@ ghost clearedN(ref) int
 //@ contract sample.(*SamplerFactory).ClearDynsamplers props C12,C13 havocheap
 //@   requires s != nil
+//@   ghostupdate clearedN(s) :: clearedN(s) == old(clearedN(s)) + 1
 //@   ensures[registry-emptied] card(s.sharedDynsamplers) == 0 && card(s.goalThroughputConfigs) == 0 && (forall k string :: !in(s.sharedDynsamplers, k) && !in(s.goalThroughputConfigs, k))
 //@   ensures[goals-scaled] goalsScaled(s)
 
@@ -218,7 +220,7 @@ package sample
 // deterministic readings of (trace, rule, nested-fields flag) - their own semantics are not under contract.
 //@ assume config.(*RulesBasedSamplerRule).String getter
 //@ spec ruleApplies(t *types.Trace, r *config.RulesBasedSamplerRule, nested bool) bool := ite(r.Scope == "span", ruleMatchesSpanInTrace(t, r, nested), ite(r.Scope == "trace" || r.Scope == "", ruleMatchesTrace(t, r, nested), true))
-//@ contract sample.(*RulesBasedSampler).GetSampleRate props C08 havocheap
+//@ contract sample.(*RulesBasedSampler).GetSampleRate props C08,C28 havocheap
 //@   arith math
 //@   requires s != nil && s.Config != nil && trace != nil
 //@   requires[rules-present] forall j int :: 0 <= j && j < len(s.Config.Rules) ==> s.Config.Rules[j] != nil
